@@ -220,6 +220,13 @@ def gen_configs(seed: int, n: int, nx_max: int, families: str = "all") -> list[d
         t = {1: "int16", 3: "int32", 4: "uint16", 6: "uint8"}.get(i % 8)
         if t and (t != "uint8" or c["nx"] <= 255) and not c.get("repress"):
             c["nx_dtype"] = t
+        # whole-number schedules given as integers, the time axis given as a pandas Series, time axes that do not start at zero
+        if c["kind"] == "single" and c.get("sched", "none") in ("const", "stepdown", "updown") and i % 3 == 1:
+            c["sched_int"] = "array" if i % 2 else "list"
+        if i % 9 == 5 and c["grid"] not in ("f32",):
+            c["time_box"] = "series"
+        if i % 7 == 3 and c["grid"] in ("uniform", "quadratic", "geometric", "random", "nearuniform"):
+            c["shift"] = (0.015625, 0.5, 64.0)[(i // 7) % 3]
     return cfgs
 
 
